@@ -114,6 +114,21 @@ def small_cases(count, seed, K):
         return _build(rng, K, rng.sample(list("ABC"), rng.randint(1, 3)), lambda ch: few(rng),
                       serial0=rng.choice([99990, 99999, 100000, 123456]), serial_step=rng.choice([1, 3]))
 
+    @g("serial-unsorted")
+    def _():
+        # unique atom ids that do not ascend: the largest (above the limit) is not the last one
+        t = _build(rng, K, rng.sample(list("ABC"), rng.randint(1, 2)), lambda ch: few(rng), serial0=99997)
+        ids = [a["serial"] for a in t]
+        rng.shuffle(ids)
+        if ids[-1] == max(ids):
+            ids[0], ids[-1] = ids[-1], ids[0]
+        if len(ids) > 2 and ids[-1] > 99999:
+            k = ids.index(min(ids))
+            ids[k], ids[-1] = ids[-1], ids[k]
+        for a, i in zip(t, ids):
+            a["serial"] = i
+        return t
+
     @g("icodes")
     def _():
         def res(ch):
